@@ -22,16 +22,19 @@ func init() {
 func (c12) ID() string    { return "C12" }
 func (c12) Level() string { return "exploration" }
 func (c12) Rule() string {
-	return "A case is a seeded sequence of policy operations by signers inside and outside the roles — stage (valid successors with root rotation over several staged steps, thresholds, rule and version edits; and successors a non-root or non-rule-file key produced: root not signed by the predecessor's quorum, self-declared new root, rule file signed by an untrusted key, lowered versions, unreachable rule file), apply, discard, authorised pushes — interleaved with crash leftovers and tampering written straight into the store: policy or staging ref moved without a log entry, a log entry without the ref, staging reset to a commit that does not descend from policy. Oracle: a state machine over (policy ref, staging ref, their latest log entries): a successful Apply moved the policy ref to the staged tip, which descends from the old policy tip, and appended its policy entry; Apply refuses on any ref/entry disagreement, on non-descendant staging and on invalid staged metadata; a failed Apply changes neither ref; Discard makes staging equal to policy; and every state a successful Apply published is accepted by a fresh LoadCurrentState and by full verification of an authorised branch history. Distinct = distinct (operation/outcome sequence, tamper kinds, ref relation before each apply); non-trivial = at least two applies were attempted and at least one succeeded after a non-initial stage."
+	return "A case is a seeded sequence of policy operations by signers inside and outside the roles — stage (valid successors with root rotation over several staged steps, thresholds, rule and version edits; and successors a non-root or non-rule-file key produced: root not signed by the predecessor's quorum, self-declared new root, rule file signed by an untrusted key, lowered versions, unreachable rule file), apply, discard, authorised pushes — interleaved with crash leftovers and tampering written straight into the store: policy or staging ref moved without a log entry, a log entry without the ref, staging reset to a commit that does not descend from policy. Oracle: a state machine over (policy ref, staging ref, their latest log entries): a successful Apply moved the policy ref to the staged tip, which descends from the old policy tip, and appended its policy entry; Apply refuses on any ref/entry disagreement, on non-descendant staging and on invalid staged metadata; a failed Apply changes neither ref; Discard makes staging equal to policy; and every state a successful Apply published is accepted by a fresh LoadCurrentState and by full verification of an authorised branch history. API slice (run indexes 0-15 and every 4096th; real git): on a repository whose applied and recorded staging states have root keys {0,4}, with staged-but-unrecorded edits on top (a directive and a hook; in a third of the cases the removal of root key 4, in another third a key added as root and removed again), 10-14 of the 29 root-of-trust mutators of experimental/gittuf are each called with valid arguments by a signer who is not a root principal of the staged state (branch-rule developer, rule-file key, app key, role-less principal, unknown key, the removed root key, the added-and-removed key): each call must return an error and leave every reference unchanged; one of the same calls is then repeated by a root principal (non-vacuity probe, not an obligation). Distinct = distinct (operation/outcome sequence, tamper kinds, ref relation before each apply | signer kind, scenario, outcome vector); non-trivial = at least two applies were attempted and at least one succeeded after a non-initial stage, or an API case ran."
 }
 func (c12) Components() map[string]string {
-	return map[string]string{"internal/policy (Apply, Discard, ReconcileStaging, State.Commit, LoadState)": "real", "experimental/gittuf loadRootMetadata": "not run here (needs a git working repository; see DESIGN.md §6 C12 note)", "gitstore.Storer": "stub (SimStore)"}
+	return map[string]string{"internal/policy (Apply, Discard, ReconcileStaging, State.Commit, LoadState)": "real", "experimental/gittuf root mutators (loadRootMetadata)": "real, on real git 2.39 / tmpfs in the API-slice cases", "pkg/gitinterface": "real in the API-slice cases", "gitstore.Storer": "stub (SimStore)"}
 }
 func (c12) Assumptions() []string {
-	return []string{"the API-level refusal of non-root signers (loadRootMetadata) is represented by what such signers can produce: metadata not signed by the required quorum, staged through State.Commit"}
+	return []string{"SimStore cases represent non-root signers by what they can produce (metadata not signed by the required quorum, staged through State.Commit); the API refusal itself is exercised by the git-engine cases", "SignRoot is not among the calls that must be refused: it adds a signature without changing what the root metadata says, and a non-root signature is ignored by verification"}
 }
 
-func (c12) Generate(r *core.Rand, tier string, idx uint64) *core.Case {
+func (d c12) Generate(r *core.Rand, tier string, idx uint64) *core.Case {
+	if c12IsAPICase(idx) {
+		return d.generateAPI(r, tier, idx)
+	}
 	c := &core.Case{Property: "C12", Engine: "simstore", Config: map[string]int{}, Flags: map[string]bool{}}
 	b := &opBuilder{}
 	pol := simplePolicy([]int{1, 2}, 1)
@@ -139,6 +142,9 @@ func latestTargetFor(w *world.World, ref string) string {
 }
 
 func (d c12) Execute(c *core.Case) *core.Result {
+	if c.Engine == "git" {
+		return d.executeAPI(c)
+	}
 	res := &core.Result{}
 	w := world.NewWithKeys([]int{0, 1, 2, 3, 4, 5, advKey})
 	w.Env.RecordEvents = false
